@@ -18,7 +18,7 @@ def main():
         passes = [
             {"harness": "c02", "cfg": {"P": "1", "C": "2", "beh": "3", "via": "4", "fp": "4"}, "budget_s": 30,
              "label": "1 proxy x 2 clients x {prompt,duplicate,unknown-id} x 4 entry points x 3 fingerprints: " + U},
-            {"harness": "c02", "cfg": {"P": "2", "C": "1", "beh": "3", "via": "4", "fp": "6"}, "budget_s": 30,
+            {"harness": "c02", "cfg": {"P": "2", "C": "1", "beh": "3", "via": "4", "fp": "9"}, "budget_s": 30,
              "label": "2 proxies x 1 client: " + U},
             {"harness": "c02", "cfg": {"P": "2", "C": "2", "beh": "2", "via": "2", "fp": "3"}, "budget_s": 40,
              "label": "2 proxies x 2 clients ({prompt,duplicate} x {ipc,post} x {none,F2,absent}): " + U},
@@ -28,7 +28,7 @@ def main():
         passes = [
             {"harness": "c02", "cfg": {"P": "1", "C": "2", "beh": "5", "via": "4", "fp": "6"}, "budget_s": 100,
              "label": "1 proxy x 2 clients, all behaviours/entry points/fingerprints: " + U},
-            {"harness": "c02", "cfg": {"P": "2", "C": "1", "beh": "5", "via": "4", "fp": "6"}, "budget_s": 100,
+            {"harness": "c02", "cfg": {"P": "2", "C": "1", "beh": "5", "via": "4", "fp": "9"}, "budget_s": 100,
              "label": "2 proxies x 1 client, all behaviours/entry points/fingerprints: " + U},
             {"harness": "c02", "cfg": {"P": "2", "C": "2", "beh": "3", "via": "4", "fp": "3"}, "budget_s": 300,
              "label": "2 proxies x 2 clients x 4 entry points x 3 fingerprints: " + U},
